@@ -438,9 +438,9 @@ func tagsOf(cmds []cspec, s *sim) []string {
 }
 
 func generate(tier string, r *rng.R) []fw.Case {
-	n := 450
+	n := 1500
 	if tier == "thorough" {
-		n = 6000
+		n = 20000
 	}
 	cs := []fw.Case{}
 	for i := 0; i < n; i++ {
